@@ -766,6 +766,12 @@ func init() {
 		if err != nil {
 			return "err:unmarshal"
 		}
+		// the caller reuses its buffers: the loaded index must not depend on them any more
+		for i := range cp {
+			for j := range cp[i] {
+				cp[i][j] ^= 0xFF
+			}
+		}
 		e.bsis[a[0]] = t
 		return t.D() + " " + s.D()
 	})
